@@ -44,6 +44,17 @@ def conj_unsat(c):
             if r[0] == "ne" and eqs & set(r[1]):
                 return True
     cmps = [l for l in c if l[0] == "cmp"]
+    # 32-bit fields of the arena (type widths the terms do not carry themselves)
+    if cmps:
+        from order import atoms_deep
+        from sym import const as _c
+        seen = set()
+        for l in list(cmps):
+            for t_ in (l[2], l[3]):
+                for a in atoms_deep(t_):
+                    if tag(a) == "field" and a[2] in ("cap", "data_offset") and a not in seen:
+                        seen.add(a)
+                        cmps.append(("cmp", "Le", a, _c(2**32 - 1)))
     try:
         return bool(cmps) and infeasible(cmps)
     except Exception:
@@ -105,6 +116,16 @@ def guard_dnf(guards):
             alts = guard_dnf([(cond[1], ("eq", 1)), (cond[2], ("eq", 1))])
         elif t == "boolor" and truth is False:
             alts = guard_dnf([(cond[1], ("eq", 0)), (cond[2], ("eq", 0))])
+        elif t == "discr" and tag(cond[1]) == "tryfrom" and rel in (("eq", 1), ("ne", (0,))):
+            # T::try_from(v) is Err: v is below the minimum or above the maximum of T
+            from sym import const as _c
+            rng = {"u8": (0, 2**8 - 1), "u16": (0, 2**16 - 1), "u32": (0, 2**32 - 1), "u64": (0, 2**64 - 1), "usize": (0, 2**64 - 1),
+                   "i8": (-2**7, 2**7 - 1), "i16": (-2**15, 2**15 - 1), "i32": (-2**31, 2**31 - 1), "i64": (-2**63, 2**63 - 1), "isize": (-2**63, 2**63 - 1)}.get(cond[1][2])
+            if rng:
+                v_ = cond[1][1]
+                alts = [frozenset(implied_facts([(("cmp", "Lt", v_, _c(rng[0])), ("eq", 1))])), frozenset(implied_facts([(("cmp", "Gt", v_, _c(rng[1])), ("eq", 1))]))]
+            else:
+                alts = [frozenset(implied_facts([(cond, rel)]))]
         else:
             alts = [frozenset(implied_facts([(cond, rel)]))]
         out = [a | b for a in out for b in alts]
@@ -147,6 +168,10 @@ def _rel_sat(rel, v):
     return True
 
 
+_INT_RANGE = {"u8": (0, 2**8 - 1), "u16": (0, 2**16 - 1), "u32": (0, 2**32 - 1), "u64": (0, 2**64 - 1), "usize": (0, 2**64 - 1),
+              "i8": (-2**7, 2**7 - 1), "i16": (-2**15, 2**15 - 1), "i32": (-2**31, 2**31 - 1), "i64": (-2**63, 2**63 - 1), "isize": (-2**63, 2**63 - 1)}
+
+
 def guard_dnf_pairs(guards):
     """like guard_dnf, but the disjuncts are lists of (cond, rel) guard pairs (for callers that extract literals themselves)"""
     out = [[]]
@@ -163,6 +188,10 @@ def guard_dnf_pairs(guards):
             alts = guard_dnf_pairs([(cond[1], ("eq", 1)), (cond[2], ("eq", 1))])
         elif t == "boolor" and truth is False:
             alts = guard_dnf_pairs([(cond[1], ("eq", 0)), (cond[2], ("eq", 0))])
+        elif t == "discr" and tag(cond[1]) == "tryfrom" and rel in (("eq", 1), ("ne", (0,))) and cond[1][2] in _INT_RANGE:
+            from sym import const as _c
+            lo_, hi_ = _INT_RANGE[cond[1][2]]
+            alts = [[(("cmp", "Lt", cond[1][1], _c(lo_)), ("eq", 1))], [(("cmp", "Gt", cond[1][1], _c(hi_)), ("eq", 1))]]
         else:
             alts = [[(cond, rel)]]
         out = [a + b for a in out for b in alts]
